@@ -13,7 +13,7 @@ type lin struct {
 }
 
 func linConst(c int64) *lin { return &lin{c: c, t: map[string]int64{}} }
-func linSym(s string) *lin   { return &lin{t: map[string]int64{s: 1}} }
+func linSym(s string) *lin  { return &lin{t: map[string]int64{s: 1}} }
 
 func (a *lin) clone() *lin {
 	o := &lin{c: a.c, t: map[string]int64{}}
